@@ -126,4 +126,56 @@ class Contract(RowCheck):
                 "sample": {"row": row, "seed": seed, "batches": T, "ess": ess, "n_total": n_total, "ess_trim": ess_trim, "bins": bins}}
 
 
-CHECKS = [Contract()]
+def exec_full(case):
+    """the same contract over complete random configurations (vlib.cfggen)"""
+    from vlib import cfggen
+
+    np.random.seed(case["rs_value"] % 2**31)
+    s, t = cfggen.build(case)
+    st = core_of(s).state
+    n_total = int(case["n_particles"] * [1, 3, 6][case["tseed"] % 3])
+    with quiet():
+        lib_call(s.run, n_total=n_total, progress=False, what="Sampler.run")
+    T = st.get_history_length()
+    beta = float(st.get_current("beta"))
+    if not abs(1.0 - beta) < 1e-4:
+        raise Violation(f"run() returned with beta={beta!r}", sig={"kind": "beta-not-one"})
+    L = [np.asarray(st.get_history("logl", index=i), dtype=float) for i in range(T)]
+    lw, lz, M = mis_logw(L, [float(b) for b in st.get_history("beta")], [float(z) for z in st.get_history("logz")], 1.0)
+    ess = ess_from_logw(lw)
+    if ess < n_total * (1 - 1e-9):
+        raise Violation(f"run(n_total={n_total}) returned with posterior ESS {ess:.3f} < n_total", sig={"kind": "ess-below-ntotal"})
+    ev = lib_call(s.evidence, what="Sampler.evidence")
+    if abs(float(ev[0]) - float(lz)) > 1e-9 * max(1.0, abs(float(lz))):
+        raise Violation(f"evidence()={float(ev[0])!r} but the MIS evidence at beta=1 recomputed from the history is {float(lz)!r}",
+                        sig={"kind": "evidence-mismatch"})
+    nblob = {"blobs": 1, "blobs2": 2}.get(case["mode"], 0)
+    for rs, tr, rb, rl in itertools.product([False, True], repeat=4):
+        what = f"posterior(resample={rs}, trim_importance_weights={tr}, return_blobs={rb}, return_logw={rl})"
+        o = lib_call(s.posterior, resample=rs, trim_importance_weights=tr, return_blobs=rb, return_logw=rl, what=what)
+        arity = 3 + (1 if (rb and nblob) else 0) + (1 if rl else 0)
+        if not isinstance(o, tuple) or len(o) != arity or len({len(a) for a in o}) != 1:
+            raise Violation(f"{what}: arity/lengths {[len(a) for a in o] if isinstance(o, tuple) else type(o)}, documented arity {arity}",
+                            sig={"kind": "arity-or-lengths"})
+        x, w, logl = np.asarray(o[0]), np.asarray(o[1], dtype=float), np.asarray(o[2], dtype=float)
+        if np.any(w < 0) or abs(float(w.sum()) - 1.0) > 1e-9 or (rs and np.max(np.abs(w - 1.0 / len(w))) > 1e-12):
+            raise Violation(f"{what}: weights not a probability vector / not uniform after resampling", sig={"kind": "weights"})
+        for i in range(len(x)):
+            if not (cfggen.ll_of(case, t, x[i]) == logl[i]):
+                raise Violation(f"{what}: row {i}: logl does not belong to x", sig={"kind": "row-logl"})
+            if rb and nblob and not np.array_equal(np.asarray(o[3][i], dtype=float).ravel(), np.array(t.blob_vec(x[i]))):
+                raise Violation(f"{what}: row {i}: blob does not belong to x", sig={"kind": "row-blob"})
+    return {"nontrivial": T >= 3, "classes": ["mode:" + case["mode"], "metric:" + case["metric"], "pool:%s" % case["pool"], "extra:" + case["ll_extra"]],
+            "sample": cfggen.summary(case)}
+
+
+def _full_cases():
+    from vlib import cfggen
+
+    return cfggen.full_config()
+
+
+from vlib.hypo import Check  # noqa: E402
+
+CHECKS = [Contract(), Check("contract_full", _full_cases, exec_full, n={"quick": 64, "thorough": 1200}, shards={"quick": 16, "thorough": 16},
+                            shrink={"quick": False, "thorough": True})]
